@@ -60,9 +60,10 @@ def main():
         rec['agent_meta'] = {'error': str(e)}
     # 1. demo with / without
     rc_with, o_with = sh('/venv/bin/python demo.py', cwd=wt, timeout=900)
-    sh('git stash -q -- gym_gridverse', cwd=wt)
+    # not `git stash`: the stash is shared by all worktrees of a repository (two evaluations collided in round 15)
+    sh(f'git apply -R {os.path.join(out, "patch.diff")}', cwd=wt)
     rc_without, o_without = sh('/venv/bin/python demo.py', cwd=wt, timeout=900)
-    sh('git stash pop -q', cwd=wt)
+    sh(f'git apply {os.path.join(out, "patch.diff")}', cwd=wt)
     rec['demo_with_patch_rc'] = rc_with
     rec['demo_without_patch_rc'] = rc_without
     rec['demo_with_patch_tail'] = o_with.strip().splitlines()[-3:]
